@@ -47,7 +47,7 @@ def run(ck, tier, seed):
         ck.sample({"module": "FaceLife", "kind": s["kind"], "opts": s["opts"], "history": [o["op"] for o in s["hist"]]})
     exe = vlib.build_harness("san")
     trace = os.path.join(tmp, "trace.ndjson")
-    h = vlib.run_harness(exe, ["facelife", hist, trace, os.path.join(vlib.REPO, "tests/fonts")], timeout=6000)
+    h = vlib.run_harness(exe, ["facelife", hist, trace, os.path.join(vlib.REPO, "tests/fonts"), os.path.join(vlib.VERIF, "data")], timeout=6000)
     vlib.absorb(ck, h)
     if h.fault or not h.summary:
         return
